@@ -1,5 +1,52 @@
-(* C08 placeholder; replaced below *)
+(* C08 — login succeeds exactly when the server accepted it.  Property theorems only.
+   Model: Login/Model.v (tds/login.go step by step: every NextPackage, type assertion and field check, the
+   NextPackageUntil callback, the capability sanity loop) over the packages the rx model (Rx/Model.v) delivers for the
+   reply packets; acceptance language: Login/Spec.v.  Both are compared with Channel.Login against a scripted peer
+   on every run. *)
 From Coq Require Import ZArith List Bool.
-From V Require Import Login.Model Login.Spec.
-Theorem C08_placeholder : True. Proof. exact I. Qed.
-Print Assumptions C08_placeholder.
+Import ListNotations.
+From V Require Import Base.Tree Base.Bytes Pkg.LoginRec Rx.Model Rx.Consumer Login.Model Login.Spec Login.Proofs.
+Open Scope Z_scope.
+
+(* Plain flow.  For EVERY stream of delivered packages and every number of queued errors: success exactly when the
+   stream begins with a success acknowledgement and a final DONE. *)
+Theorem C08_plain_success_iff : forall q e, plain_flow q e = LSuccess <-> accepts_plain q = true.
+Proof. exact plain_success_iff. Qed.
+
+(* Encrypted flow.  For every key oracle, configuration, and every pair of delivered streams (reply to the login
+   record, reply to the encrypted passwords) and error counts: success exactly when the first reply begins with
+   negotiation acknowledgement, ENCRYPT4 message, the three key parameters (cipher suite 1, key, nonce) and DONE, every
+   secret fits the key, and what follows contains - after packages that are not acknowledgements - a success
+   acknowledgement, capabilities the server understood, and a final DONE. *)
+Theorem C08_encrypted_success_iff : forall keycap c q1 e1 q2 e2,
+  fst (enc_flow keycap c q1 e1 q2 e2) = LSuccess <-> accepts_enc (all_fit keycap c) q1 q2 = true.
+Proof. exact enc_success_iff. Qed.
+
+(* The whole call, from the reply PACKETS (any packetisation, any content: the rx model parses them): success exactly
+   when the mode is supported, the configuration fits the login record, and the replies are an acceptance.  Every
+   other reply sequence yields LRejected or LCtx (an error; LCtx = the wait ended with the caller's context). *)
+Theorem C08_login_success_iff : forall keycap c rounds,
+  d_res (decide keycap c rounds) = LSuccess <-> accepted keycap c rounds = true.
+Proof. exact login_success_iff. Qed.
+
+(* After a successful encrypted login the connection's capabilities are the ones the server returned (the package
+   following the acknowledgement) and the packet size is the last one announced in the replies. *)
+Theorem C08_post : forall keycap c rounds,
+  with_encryption (lc_encrypt c) = true -> d_res (decide keycap c rounds) = LSuccess ->
+  let '(q1, q2, es) := replies_delivered rounds in
+  (exists a cp rest, skip_to_ack (skipn 5 q1 ++ q2) = a :: cp :: rest /\ d_caps (decide keycap c rounds) = Some (snd cp)) /\
+  d_packsize (decide keycap c rounds) = size_after 512 es.
+Proof. exact login_post. Qed.
+
+(* non-vacuity: the plain acceptance is met by LOGINACK(5) DONE(0); a DONE with other status bits is refused *)
+Example C08_example_accept :
+  plain_flow [(173, TL [TI 13; TI 5; TB [5;0;0;0]; TI 3; TB [65;83;69]; TB [16;0;0;1]]); (253, TL [TI 0; TI 0; TI 0])] 0 = LSuccess.
+Proof. vm_compute. reflexivity. Qed.
+Example C08_example_refuse :
+  plain_flow [(173, TL [TI 13; TI 5; TB [5;0;0;0]; TI 3; TB [65;83;69]; TB [16;0;0;1]]); (253, TL [TI 3; TI 0; TI 0])] 0 = LRejected.
+Proof. vm_compute. reflexivity. Qed.
+
+Print Assumptions C08_plain_success_iff.
+Print Assumptions C08_encrypted_success_iff.
+Print Assumptions C08_login_success_iff.
+Print Assumptions C08_post.
